@@ -83,6 +83,7 @@ pub fn replay_value(rp: &Value) -> Vec<String> {
         "compile-sizing" => byteseng::replay_compile_sizing(rp),
         "asm" => text::replay_asm(rp),
         "asm-after" => text::replay_asm_after(rp),
+        "asm-lenient" => text::replay_asm_lenient(rp),
         "asm-total" => text::replay_asm_total(rp),
         "disasm" => text::replay_disasm(rp),
         "disasm-print" => text::replay_disasm_print(rp),
